@@ -11,7 +11,12 @@ on the UTF-8 bytes.  Its `Ordering::Equal` arm exists in two variants (`CkVarian
 as it was (defect D12), and `fix`, the repaired arm; every function from `checkEntries` up to `split`
 takes the variant, and the driver reads it from the token `ck_variant=cur|fix` (default `cur`).
 
-The five regular expressions are transcribed as direct matchers (see the comment on each).
+The second half of the file (`strSlice`, `examineB`, `scanB`, `getEosB`, `splitFuelB`) is the same code
+transcribed over **byte offsets**, where every `&s[a..b]` can panic; the driver runs that half, and
+`Proofs/SentenceBytes.lean` proves it equal to the character-index half.
+
+The regular expressions are transcribed as direct matchers (see the comment on each; five of them are
+proved equal to the language of the pattern in `Proofs/SentenceRegex.lean`).
 `fancy_regex`/`regex` semantics used: leftmost-first (backtracking order) matching, greedy
 quantifiers, `find_iter` = successive non-overlapping matches, look-behind/look-ahead see the whole
 haystack `s` (the current slice cut to `limit` characters), `.` excludes `\n` only, `\s` is the
@@ -403,6 +408,140 @@ def split (v : CkVariant) (limit : Nat) (checker : Option (List (List (List Nat)
     SplitRes :=
   splitFuel v limit checker text.length 0 text
 
+/-! ## the same code over byte offsets (what the Rust code really computes with)
+
+`get_eos` and `SentenceIter::next` handle **byte** offsets and slice `&str`s with them; a slice whose
+end is not a character boundary, or lies beyond the string, panics.  The functions above compute in
+character indices, where that cannot be expressed.  The `…B` functions below mirror the Rust
+arithmetic literally (`eos += prohibited_bos(..)`, `eos - last_char_len`, `position + rv as usize`,
+`-(mat.end() as isize)`), take every slice with `strSlice` (= `none` when the Rust slice would panic)
+and answer `panic` then.  `Proofs/SentenceBytes.lean` proves them equal to the character-index
+functions — i.e. no slice ever panics — and the driver runs the byte versions. -/
+
+/-- `&s[a..b]` at byte offsets; `none` = the slice panics: `a > b`, `b > s.len()`, or `a`/`b` inside a
+character (`charsToByte` = number of characters before a byte offset, `none` off a boundary / beyond
+the end) -/
+def strSlice (s : Text) (a b : Nat) : Option Text :=
+  if b < a then none else
+  match charsToByte s a, charsToByte s b with
+  | some i, some j => some ((s.take j).drop i)
+  | _, _ => none
+
+/-- `prohibited_bos(s)`: `mat.end()` in bytes, 0 without a match -/
+def prohibitedBosB (t : Text) : Nat := blen (t.take (prohibitedBos t))
+
+/-- `is_continuous_phrase(s, eos)` with `eos` in bytes.  `none` = a panic: a slice off a boundary, one of
+the two `unwrap()`s on `None`, or `eos - last_char_len` underflowing. -/
+def isContinuousPhraseB (s : Text) (eos : Nat) : Option Bool :=
+  match strSlice s 0 eos with                                     -- `s[..eos]`
+  | none => none
+  | some head =>
+    match head.getLast? with                                      -- `.chars().last().unwrap()`
+    | none => none
+    | some lc =>
+      let lastCharLen := width lc                                 -- `.to_string().len()`
+      if eos < lastCharLen then none else                         -- `eos - last_char_len` (usize)
+      match strSlice s (eos - lastCharLen) (blen s) with          -- `s[(eos - last_char_len)..]`
+      | none => none
+      | some q =>
+        if quoteMarkerAt0 q then some true else
+        match strSlice s eos (blen s) with                        -- `s[eos..]`
+        | none => none
+        | some [] => none                                         -- `.chars().nth(0).unwrap()`
+        | some (c :: _) =>
+          some ((c = 0x3068 || c = 0x3084 || c = 0x306E) && endsWithItemize head.reverse)
+
+/-- body of `for mat in SENTENCE_BREAKER.find_iter(&s)` with `eos0 = mat.end()` in bytes;
+`.accept eos` carries the returned byte offset -/
+def examineB (v : CkVariant) (checker : Option (List (List (List Nat)))) (input s : Text) (eos0 : Nat) :
+    Cand :=
+  match strSlice s 0 eos0 with                                    -- `parenthesis_level(&s[..eos])`
+  | none => .panic
+  | some head =>
+    if parenLevel head > 0 then .veto else
+    match (if eos0 < blen s then                                  -- `if eos < s.len()`
+             (strSlice s eos0 (blen s)).map (fun t => eos0 + prohibitedBosB t)   -- `eos += prohibited_bos(&s[eos..])`
+           else some eos0) with
+    | none => .panic
+    | some eos =>
+      if isItemizeHeader s then .veto else
+      match (if eos < blen s then isContinuousPhraseB s eos else some false) with
+      | none => .panic
+      | some true => .veto
+      | some false =>
+        match checker with
+        | none => .accept eos
+        | some lexs =>
+          match hasNonBreakWord v lexs input eos with             -- `ck.has_non_break_word(input, eos)`
+          | .panic => .panic
+          | .ok true => .veto
+          | .ok false => .accept eos
+
+/-- `scan` with the byte offset `kb` of the current position carried along (`mat.end()` is a byte
+offset: `kb` + the bytes of the match) -/
+def scanB (v : CkVariant) (checker : Option (List (List (List Nat)))) (input s : Text) :
+    Nat → Option Nat → Nat → Text → Option Cand
+  | _, _, _, [] => none
+  | kb, _, skip + 1, c :: rest => scanB v checker input s (kb + width c) (some c) skip rest
+  | kb, prev, 0, c :: rest =>
+    match breakerAt prev (c :: rest) with
+    | none => scanB v checker input s (kb + width c) (some c) 0 rest
+    | some n =>
+      match examineB v checker input s (kb + blen ((c :: rest).take n)) with
+      | .veto => scanB v checker input s (kb + width c) (some c) (n - 1) rest
+      | r => some r
+
+/-- `get_eos`: the returned `isize` -/
+def getEosB (v : CkVariant) (limit : Nat) (checker : Option (List (List (List Nat)))) (input : Text) :
+    Res Int :=
+  if input.isEmpty then .ok 0 else
+  let s := input.take limit                                       -- `input.chars().take(self.limit).collect()`
+  let inputExceedsLimit := decide (blen s < blen input)           -- `s.len() < input.len()`
+  match scanB v checker input s 0 none 0 s with
+  | some (.accept e) => .ok (Int.ofNat e)                         -- `return Ok(eos as isize)`
+  | some .panic => .panic
+  | some .veto => .panic   -- unreachable
+  | none =>
+    if inputExceedsLimit then
+      match spacesEnd s with
+      | some e => .ok (- Int.ofNat (blen (s.take e)))             -- `Ok(-(mat.end() as isize))`
+      | none => .ok (- Int.ofNat (blen s))
+    else .ok (- Int.ofNat (blen s))                               -- `Ok(-(s.len() as isize))`
+
+/-- `fuel` calls of `SentenceIter::next` on `data`, `position` in bytes -/
+def splitFuelB (v : CkVariant) (limit : Nat) (checker : Option (List (List (List Nat)))) (data : Text) :
+    Nat → Nat → SplitRes
+  | 0, position => if position = blen data then .ok [] else .fuelOut
+  | fuel + 1, position =>
+    if position = blen data then .ok [] else                      -- `position == data.len()` → `None`
+    match strSlice data position (blen data) with                 -- `&self.data[self.position..]`
+    | none => .panic
+    | some slice =>
+      match getEosB v limit checker slice with
+      | .panic => .panic                                          -- `.unwrap()`
+      | .ok rv =>
+        let endB := if rv < 0 then blen data else position + rv.toNat
+        match strSlice data position endB with                    -- `&self.data[range.clone()]`
+        | none => .panic
+        | some real => SplitRes.cons ⟨position, endB, real⟩ (splitFuelB v limit checker data fuel endB)
+
+/-- the whole iteration over byte offsets -/
+def splitB (v : CkVariant) (limit : Nat) (checker : Option (List (List (List Nat)))) (text : Text) :
+    SplitRes :=
+  splitFuelB v limit checker text text.length 0
+
+/-- the value of `get_eos` on the rest of the text at the start of every sentence (what each call of
+`next` saw); the last one is the negative (provisional) answer unless the text ends with a break -/
+def stepValues (v : CkVariant) (limit : Nat) (checker : Option (List (List (List Nat)))) (text : Text)
+    (l : List Sent) : List String :=
+  l.map (fun x =>
+    match strSlice text x.b (blen text) with
+    | none => "PANIC"
+    | some rest =>
+      match getEosB v limit checker rest with
+      | .panic => "PANIC"
+      | .ok rv => toString rv)
+
 /-! ## driver entry -/
 
 def showSents (l : List Sent) : String :=
@@ -418,21 +557,22 @@ def parseVariant (toks : List (List Char)) : Option CkVariant :=
   | none => some .cur
   | some w => if w = "cur".toList then some .cur else if w = "fix".toList then some .fix else none
 
-/-- `C16 split idx=<n> limit=<n> ck=<0|1> [ck_variant=cur|fix] lex=<hex,hex;hex,...> text=<code points>` -/
+/-- `C16 split idx=<n> limit=<n> ck=<0|1> [ck_variant=cur|fix] lex=<hex,hex;hex,...> text=<code points>`
+→ `ok eos=<isize> ranges=<b:e,...> steps=<isize,...>` computed by the byte-offset functions -/
 def handle (toks : List (List Char)) : String :=
   match Wire.kv? toks "limit", Wire.kv? toks "ck", Wire.kv? toks "lex", Wire.kv? toks "text" with
   | some l, some ck, some lx, some t =>
     match Wire.nat? l, Wire.nat? ck, parseLexs lx, Wire.natList? t, parseVariant toks with
     | some limit, some ckn, some lexs, some text, some v =>
       let checker := if ckn = 0 then none else some lexs
-      let eos := match getEos v limit checker text with
+      let eos := match getEosB v limit checker text with
         | .panic => "PANIC"
-        | .ok r => toString (eosValue text r)
-      let sp := match split v limit checker text with
-        | .panic => "PANIC"
-        | .fuelOut => "NONTERMINATION"
-        | .ok l => showSents l
-      "ok eos=" ++ eos ++ " ranges=" ++ sp
+        | .ok r => toString r
+      let (sp, steps) := match splitB v limit checker text with
+        | .panic => ("PANIC", "-")
+        | .fuelOut => ("NONTERMINATION", "-")
+        | .ok l => (showSents l, Wire.joinWith "," (stepValues v limit checker text l))
+      "ok eos=" ++ eos ++ " ranges=" ++ sp ++ " steps=" ++ steps
     | _, _, _, _, _ => "bad-op"
   | _, _, _, _ => "bad-op"
 
